@@ -226,6 +226,27 @@ def run():
         if cv[k]["v"] == "ACCEPT":
             raise MachineryError("ChooseTrace accepts a corrupted observation (%s)" % name)
         log.append("ChooseTrace/%s -> %s" % (name, cv[k]["clause"]))
+    # Term (L2 model of the Printer in colour mode): a model behaviour agrees with what the real Printer makes a terminal
+    # show; corrupted ones do not
+    from props import _term
+    tb = {"hist": [{"op": "enter", "chain": [[3, 1], [2, 1], [1, 1]], "ch": ""}, {"op": "mark", "chain": [], "ch": "strike"},
+                   {"op": "write", "chain": [], "ch": "x"}, {"op": "unmark", "chain": [], "ch": ""}, {"op": "exit", "chain": [], "ch": ""},
+                   {"op": "newline", "chain": [], "ch": ""}, {"op": "indent", "chain": [], "ch": ""}, {"op": "write", "chain": [], "ch": "y"}],
+          "cells": [{"ch": "x", "f": 1, "b": 1, "s": 1, "strike": True, "plus": False}, {"ch": "n", "f": 0, "b": 0, "s": 0, "strike": False, "plus": False}]
+          + [{"ch": " ", "f": 0, "b": 0, "s": 0, "strike": False, "plus": False}] * 4
+          + [{"ch": "y", "f": 0, "b": 0, "s": 0, "strike": False, "plus": False}],
+          "term": [0, 0, 0], "risky": False, "open": 0}
+    if _term.compare(tb):
+        raise MachineryError("Term.tla behaviour does not agree with the real Printer: %s" % _term.compare(tb))
+    for name, mut in (("colour-leaks-past-the-context", lambda b: b["cells"][1].__setitem__("f", 1)),
+                      ("mark-lost", lambda b: b["cells"][0].__setitem__("strike", False)),
+                      ("indentation", lambda b: b["cells"].pop(2)),
+                      ("attributes-at-the-end", lambda b: b.__setitem__("term", [0, 0, 1]))):
+        bad = copy.deepcopy(tb)
+        mut(bad)
+        if not _term.compare(bad):
+            raise MachineryError("Term replay does not notice a corrupted behaviour (%s)" % name)
+        log.append("Term/%s -> drift noticed" % name)
     # Assign
     good = {"table": [[1, 0], [0, 2]], "result": [[1, 2, 0], [2, 1, 0]], "raised": False}
     b1 = {"table": [[1, 0], [0, 2]], "result": [[1, 1, 1], [2, 2, 2]], "raised": False}
